@@ -74,8 +74,9 @@ StatusViol(g1, g2, h, list) ==
   LET expired == ExpiredIds(g1, h)
       want(id) == IF id \in DOMAIN g2.kid THEN g2.grp[g2.kid[id]].state ELSE CurStatus(g2, id)
       bad == {x \in ToSet(list) : x.st # want(x.id)}
-  IN {<<IF x.id \in expired \/ x.st = "BEGIN_ROLLBACK" THEN "C06_FiresAt" ELSE "C04_QueryAgrees",
-        [id |-> x.id, observed |-> x.st, expected |-> want(x.id)]>> : x \in bad}
+  IN {<<"C04_QueryAgrees", [id |-> x.id, observed |-> x.st, expected |-> want(x.id)]>> : x \in bad}
+     \cup {<<"C06_FiresAt", [id |-> x.id, observed |-> x.st, expected |-> want(x.id)]>> :
+              x \in {y \in bad : y.id \in expired \/ y.st = "BEGIN_ROLLBACK" \/ want(y.id) = "BEGIN_ROLLBACK"}}
 
 \* delivery: every accepted request is listed exactly once under its destination chain at its position
 DelivViol(en, txs, counter) ==
@@ -83,7 +84,10 @@ DelivViol(en, txs, counter) ==
       cnt(chain, p) == Cardinality({i \in 1..Len(entries(chain)) : entries(chain)[i].pos = p})
       reqs == {i \in 1..Len(txs) : txs[i].k = "ibtp" /\ txs[i].typ = "REQ" /\ txs[i].status = "SUCCESS" /\ txs[i].dstChain # en.bxh}
       dchain(t) == IF t.dstLocal THEN t.dstChain ELSE UnionPier
+      allpos == UNION {{entries(c)[i].pos : i \in 1..Len(entries(c))} : c \in DOMAIN counter}
+      okpos  == {i - 1 : i \in {j \in 1..Len(txs) : txs[j].k = "ibtp" /\ txs[j].status = "SUCCESS"}}
   IN {<<"C02_DeliveredOnce", [id |-> txs[i].id, n |-> cnt(dchain(txs[i]), i - 1)]>> : i \in {j \in reqs : cnt(dchain(txs[j]), j - 1) # 1}}
+     \cup {<<"C02_DeliveredOnlyAccepted", [pos |-> p, ntx |-> Len(txs)]>> : p \in allpos \ okpos}
 
 \* timeout metadata: exactly the one-to-one transactions that expire in this block, once, under their source chain
 TmetaViol(g1, h, tmeta, idChain) ==
@@ -92,9 +96,18 @@ TmetaViol(g1, h, tmeta, idChain) ==
       occ(id) == UNION { {<<x.chain, i>> : i \in {j \in 1..Len(x.ids) : x.ids[j] = id}} : x \in lists }
       listed == UNION {SeqRange(x.ids) : x \in lists}
       groupKids == UNION {DOMAIN g1.grp[gid].kids : gid \in ExpiredGrps(g1, h)}
+      chainsOf(id) == {o[1] : o \in occ(id)}
+      gexp == ExpiredGrps(g1, h)
   IN {<<"C06_FiresAt", [id |-> id, listed |-> Cardinality(occ(id))]>> :
           id \in {x \in expired : Cardinality(occ(x)) # 1 \/ \E o \in occ(x) : o[1] # idChain[x]}}
      \cup {<<"C06_OnlyExpired", id>> : id \in listed \ (expired \cup groupKids)}
+     \* a group that expires: the source chain is told about every child, and every destination chain that holds
+     \* an already succeeded child is told about that child (C05, C06 "the same holds for a group as a whole")
+     \cup UNION {{<<"C06_GroupFiresAt", [gid |-> gid, child |-> k, chains |-> chainsOf(k)]>> :
+                     k \in {x \in DOMAIN g1.grp[gid].kids : g1.grp[gid].src \notin chainsOf(x)}} : gid \in gexp}
+     \cup UNION {{<<"C05_NotifyInSameBlock", [gid |-> gid, child |-> k, chains |-> chainsOf(k)]>> :
+                     k \in {x \in DOMAIN g1.grp[gid].kids : g1.grp[gid].kids[x] = "SUCCESS"
+                                                          /\ g1.grp[gid].info[x].dstChain \notin chainsOf(x)}} : gid \in gexp}
 
 GroupViol(g2, groups) ==
   LET obs == ToSet(groups)
@@ -104,8 +117,8 @@ GroupViol(g2, groups) ==
                 \/ Cardinality(match(gid)) # 1
                 \/ \E x \in match(gid) : \/ x.state # g2.grp[gid].state
                                          \/ \E k \in ToSet(x.kids) : k.st # g2.grp[gid].kids[k.id]}
-      obsOf(gid) == IF match(gid) = {} THEN "missing" ELSE (CHOOSE x \in match(gid) : TRUE)
-  IN {<<"C05_GroupState", [gid |-> gid, expected |-> [state |-> g2.grp[gid].state, kids |-> g2.grp[gid].kids], observed |-> obsOf(gid)]>> : gid \in bad}
+      obsOf(gid) == IF match(gid) = {} THEN [state |-> "missing"] ELSE (CHOOSE x \in match(gid) : TRUE)
+  IN {<<IF g2.grp[gid].state = "BEGIN_ROLLBACK" \/ (obsOf(gid).state = "BEGIN_ROLLBACK") THEN "C06_GroupFiresAt" ELSE "C05_GroupState", [gid |-> gid, expected |-> [state |-> g2.grp[gid].state, kids |-> g2.grp[gid].kids], observed |-> obsOf(gid)]>> : gid \in bad}
      \cup (IF C05_SuccessOnlyIfAll(g2) THEN {} ELSE {<<"C05_SuccessOnlyIfAll", "machine">>})
 
 BlockStep(e) ==
